@@ -41,8 +41,10 @@ def transform(rng, a, kind, target=None, extreme=False):
             # sum is exact too (strictly increasing affine map: same information)
             f = rng.choice(EXTREME)
             obs = [v for v in col if not isnan(v) and not math.isinf(v)]
-            if obs and max(abs(v) for v in obs) < 2048 and all(float(2 * v).is_integer() for v in obs):
-                off = rng.choice([0, 0, 1, -7, 2.0 ** 20]) if f < 1 else rng.choice([0, 0, 1, -7])
+            off = rng.choice([0, 0, 1, -7, f, -3 * f, 1024 * f])
+            # the affine map must be EXACT in binary64 (otherwise values collapse / ties appear)
+            if any(c14.Fr(v) * c14.Fr(f) + c14.Fr(off) != c14.Fr(v * f + off) for v in obs):
+                off = 0
         new = [v if isnan(v) else v * f + off for v in col]
         if any(isinstance(v, float) for v in new):
             new = [float(v) for v in new]
